@@ -139,3 +139,34 @@ func VH_C08_window() {
 	vrt.Assert(NASEncrypt(alg, k, count, bearer, dir, buf[:n]) == nil, "NASEncrypt of a window succeeds")
 	vrt.Equal(buf[n:], snap[n:], "ciphering writes nothing behind the payload")
 }
+
+// A result handed out earlier belongs to the caller: overwriting it (verifying in place, reusing the 4 octets) must not
+// change what a later call returns, and a later call must not change a result the caller still holds. Algorithms 0..3.
+func VH_C08_results_independent() {
+	c08abstract()
+	n := vrt.Choose("n", 0, 9)
+	alg := uint8(vrt.Choose("alg", 0, 3))
+	k := c08key("k")
+	m := vrt.Bytes("m", n)
+	count, bearer, dir := vrt.U32("count"), vrt.U8("bearer")&31, vrt.U8("dir")&1
+	mac1, err1 := NASMacCalculate(alg, k, count, bearer, dir, m)
+	vrt.Assert(err1 == nil && len(mac1) == 4, "first MAC is 4 octets")
+	keep := append([]byte{}, mac1...)
+	scribble := vrt.Bytes("scribble", 4)
+	copy(mac1, scribble) // the caller overwrites its own result
+	held := append([]byte{}, mac1...)
+	mac2, err2 := NASMacCalculate(alg, k, count, bearer, dir, m)
+	vrt.Assert(err2 == nil && len(mac2) == 4, "second MAC is 4 octets")
+	vrt.Equal(mac2, keep, "the MAC of the same arguments does not depend on what the caller did with an earlier result")
+	vrt.Equal(mac1, held, "computing another MAC does not change a result the caller still holds")
+	if alg == 0 {
+		vrt.Assert(mac2[0] == 0 && mac2[1] == 0 && mac2[2] == 0 && mac2[3] == 0, "NIA0 MAC is all zero on every call")
+	}
+	// a different message in between
+	m3 := vrt.Bytes("m3", vrt.Choose("n3", 0, 3))
+	mac3, _ := NASMacCalculate(alg, k, vrt.U32("count3"), bearer, dir, m3)
+	copy(mac3, scribble)
+	mac4, _ := NASMacCalculate(alg, k, count, bearer, dir, m)
+	vrt.Equal(mac4, keep, "the MAC does not depend on earlier calls with other arguments")
+	vrt.Equal(mac2, keep, "an earlier result is not changed by later calls")
+}
